@@ -711,7 +711,10 @@ class Engine:
         self._refused_remove(op, n)
 
     def op_pg_add(self, op):
-        o = self.rng.choice([x for x in self.model.of_kind("object") if self._pg_candidates(x)])
+        hosts = [x for x in self.model.of_kind("object") if self._pg_candidates(x)]
+        if not hosts:
+            raise ExpectedRefusal("no data that can be grouped")
+        o = self.rng.choice(hosts)
         cands = self._pg_candidates(o)
         assoc = self.rng.choice(sorted({c.assoc for c in cands}))
         cands = [c for c in cands if c.assoc == assoc]
